@@ -86,8 +86,9 @@ func cmdCheck(args []string) int {
 	}
 	t0 := time.Now()
 	runs := spec.Quick
-	if *tier == "thorough" && len(spec.Thorough) > 0 {
-		runs = spec.Thorough
+	if *tier == "thorough" {
+		// thorough = every quick run plus the deeper runs
+		runs = append(append([]HarnessRun{}, spec.Quick...), spec.Thorough...)
 	}
 	env, err := loadEnv([]string{spec.PkgDir})
 	if err != nil {
@@ -603,7 +604,9 @@ func init() {
 	}
 	reg(&CheckSpec{
 		ID: "C07", PkgDir: "statedb",
-		Quick:    []HarnessRun{c07(map[string]int{"N": 3, "PRE": 1, "CAS": 0}, 60), c07cas(2), {Entry: "VerifKFNextUncommitted"}},
+		Quick:    []HarnessRun{c07(map[string]int{"N": 3, "PRE": 1, "CAS": 0}, 60), c07cas(2), {Entry: "VerifKFNextUncommitted"},
+			// the same delivery clause with the graveyard collector running (C08's harness): Next through a WriteTxn with a pending delete, then GC, then a lagging Next
+			{Entry: "VerifC08Graveyard", Params: map[string]int{"N": 2, "NIT": 2, "STEPMAX": 6, "CAS": 0}, Covers: []string{"C08.next-with-writetxn", "C08.end"}, NoNative: true, Preempt: 0, Deadlock: true}},
 		Thorough: []HarnessRun{c07(map[string]int{"N": 4, "PRE": 1, "CAS": 0}, 60), c07(map[string]int{"N": 3, "PRE": 2, "L": 1, "CAS": 0}, 60), c07(map[string]int{"N": 3, "PRE": 1, "CAS": 1}, 60), {Entry: "VerifKFNextUncommitted"}},
 		Known:    []KnownProbe{{ID: "KF-next-uncommitted-deletes", Entry: "VerifKFNextUncommitted"}},
 		Outside: []string{"outside: interleaving with graveyard collection and with other iterators being created/closed (one iterator, no collector runs: see C08); the Observable wrapper; finalizer-driven close; more than N steps after PRE concrete objects; keys longer than L",
